@@ -86,6 +86,10 @@ def long_inputs(ctx):
 
 
 def run(ctx):
+    # statements that are large in one dimension (long lists, chains, many tokens, deep nesting, many statements): the property has no size bound
+    for s in [s for s in gen.scale_texts(ctx.rng)]:
+        oracle(ctx, s)
+    ctx.count('scale texts')
     ins = [c['input'] for c in streams.corpus('C02')] + inputs(ctx, ctx.n(2500, 50000), ctx.n(500, 10000))
     nb = 0
     for s in boundary_sweep(3):
